@@ -151,34 +151,45 @@ def run_impl(case):
     return {"st": "ok", "as": out}
 
 
-_CACHE = {}
+_CACHE = {}      # case key -> implementation result
+_OCACHE = {}     # (property, case key) -> (implementation result it was computed from, oracle verdict)
 
 
 def _pool_job(case):
-    return impl_call(run_impl, case)
+    ir = impl_call(run_impl, case)
+    return ir, _oracle_c04(case, ir), _oracle_c15(case, ir)
 
 
 def precompute(cases):
-    """run the implementation on all cases in a process pool (forked: same sys.path / VERIF_REPO)"""
+    """run the implementation and the two oracles on all cases in a process pool (forked: same
+    sys.path / VERIF_REPO); `impl` and the oracles then answer from the cache"""
     import multiprocessing as mp
     if len(cases) < 64:
         return
     ctx = mp.get_context("fork")
     with ctx.Pool(min(16, os.cpu_count() or 4)) as pool:
         res = pool.map(_pool_job, cases, chunksize=max(1, len(cases) // 256))
-    for c, r in zip(cases, res):
-        _CACHE[case_key(c)] = r
+    for c, (r, o4, o15) in zip(cases, res):
+        k = case_key(c)
+        _CACHE[k] = r
+        _OCACHE[("C04", k)] = (r, o4)
+        _OCACHE[("C15", k)] = (r, o15)
 
 
 def impl(case):
     k = case_key(case)
     if k in _CACHE:
-        r = _CACHE[k]
-        if r.get("st") == "err":
-            # re-raise through the engine's own mapping
-            return r
-        return r
+        return _CACHE[k]
     return run_impl(case)
+
+
+def _cached_oracle(pid, f):
+    def oracle(case, ir):
+        hit = _OCACHE.get((pid, case_key(case)))
+        if hit is not None and hit[0] is ir:
+            return hit[1]
+        return f(case, ir)
+    return oracle
 
 
 def request(case):
@@ -228,8 +239,12 @@ def signature(case, ir):
     if not res:
         return ("trivial:" if n < 3 else "") + f"empty;n={n};{case['asn']};{hint}"
     kinds = {a["t"] for a in res if a}
-    merged = any(len(a["ro"]) > 1 for a in res if a)
-    s = f"n={n};{'+'.join(sorted(kinds))};{case['asn']};{hint};{'merged' if merged else 'single'}"
+    flags = []
+    if any(a and a["t"] == "NEB" and a["ro"] for a in res):
+        flags.append("neb-absorbed")        # a NEB subsumed a NEN in the last pass
+    if any(a and a["t"] == "NEN" and len(a["ro"]) > 1 for a in res):
+        flags.append("nen-merged")          # de-duplication or NEN subsumption merged tails
+    s = f"n={n};{'+'.join(sorted(kinds))};{case['asn']};{hint};{'+'.join(flags) if flags else 'plain'}"
     return ("trivial:" if n < 3 else "") + s
 
 
@@ -376,7 +391,7 @@ def gen(rng, n, tier):
 # ---------------------------------------------------------------------------------------------
 # oracles (brute force on the implementation's output; independent of the model)
 
-def oracle_c04(case, ir):
+def _oracle_c04(case, ir):
     if ir.get("st") != "ok":
         return {"what": f"compute_raire_assertions raised {ir.get('err')}: {ir.get('msg')}"}
     cands, winner = case["cands"], case["winner"]
@@ -410,7 +425,7 @@ def oracle_c04(case, ir):
     return {"what": "empty result although the true NEB/NEN assertions exclude every alternative winner"}
 
 
-def oracle_c15(case, ir):
+def _oracle_c15(case, ir):
     if ir.get("st") != "ok":
         return {"what": f"compute_raire_assertions raised {ir.get('err')}: {ir.get('msg')}"}
     cands, winner = case["cands"], case["winner"]
@@ -435,4 +450,4 @@ def oracle_c15(case, ir):
     return None
 
 
-ORACLES = {"C04": oracle_c04, "C15": oracle_c15}
+ORACLES = {"C04": _cached_oracle("C04", _oracle_c04), "C15": _cached_oracle("C15", _oracle_c15)}
